@@ -9,6 +9,7 @@ import (
 
 	"github.com/celestiaorg/rsmt2d"
 
+	"github.com/celestiaorg/celestia-node/internal/verifhook"
 	"github.com/celestiaorg/celestia-node/share/shwap"
 )
 
@@ -30,11 +31,13 @@ func createQ4(
 	if err != nil {
 		return fmt.Errorf("creating Q4 file: %w", err)
 	}
+	verifhook.Point("q4:created")
 
 	err = writeQ4File(f, eds)
 	if errClose := f.Close(); errClose != nil {
 		err = errors.Join(err, fmt.Errorf("closing created Q4 file: %w", errClose))
 	}
+	verifhook.Point("q4:closed")
 
 	return err
 }
@@ -51,6 +54,7 @@ func writeQ4File(f *os.File, eds *rsmt2d.ExtendedDataSquare) error {
 	if err := buf.Flush(); err != nil {
 		return fmt.Errorf("flushing Q4: %w", err)
 	}
+	verifhook.Point("q4:flushed")
 
 	return nil
 }
@@ -66,6 +70,7 @@ func writeQ4(w io.Writer, eds *rsmt2d.ExtendedDataSquare) error {
 			if err != nil {
 				return fmt.Errorf("writing share: %w", err)
 			}
+			verifhook.Point("q4:share-written")
 		}
 	}
 	return nil
